@@ -1,6 +1,6 @@
 (** C09 — domain, forward-key and agent lookups select the documented best route. *)
 From Coq Require Import String.
-From Coq Require Import List NArith.
+From Coq Require Import List NArith Permutation.
 From MM Require Import Model.RouteTable Model.RouteTableSource Proofs.RouteTableBase Proofs.RouteTableProofs Proofs.RouteTableExamples Generated.C09.
 Import ListNotations.
 Local Open Scope N_scope.
@@ -23,10 +23,10 @@ Local Open Scope N_scope.
     lowest metric of all such wildcards; or it returns nothing and no stored
     pattern matches in either way. Wildcards two or more labels above the
     name never match (they are not [wild_match]). *)
-Theorem C09_domain_lookup : forall (local : N) (ops : list op) (name : str),
-  let m := run local ops in
+Theorem C09_domain_lookup : forall (local : N) (srt : sorter), sorter_ok srt -> forall (ops : list op) (name : str),
+  let m := run local srt ops in
   let d := lower name in
-  match snd (step local m (ODLookup name)) with
+  match snd (step local srt m (ODLookup name)) with
   | FNone => forall x, dstored m x -> ~ exact_match x d /\ ~ wild_match x d
   | FDom r =>
       dstored m r /\
@@ -50,8 +50,8 @@ Proof. exact vocabulary_c09. Qed.
 
 (** the wildcard flag and base of every stored route are those of its pattern
     text: "*." + base after trimming blanks *)
-Theorem C09_stored_flags_follow_pattern : forall (local : N) (ops : list op) x,
-  dstored (run local ops) x ->
+Theorem C09_stored_flags_follow_pattern : forall (local : N) (srt : sorter), sorter_ok srt -> forall (ops : list op) x,
+  dstored (run local srt ops) x ->
   parse_pattern (dr_pattern (e_data x)) = (dr_wild (e_data x), dr_base (e_data x)).
 Proof. exact dstored_pattern. Qed.
 Print Assumptions C09_stored_flags_follow_pattern.
@@ -62,17 +62,17 @@ Proof. exact parse_pattern_wild. Qed.
 
 (** case-insensitive: two names that differ only in letter case give the
     same result in every state *)
-Theorem C09_case_insensitive : forall (local : N) (m : mgr) (n1 n2 : str),
-  lower n1 = lower n2 -> step local m (ODLookup n1) = step local m (ODLookup n2).
+Theorem C09_case_insensitive : forall (local : N) (srt : sorter) (m : mgr) (n1 n2 : str),
+  lower n1 = lower n2 -> step local srt m (ODLookup n1) = step local srt m (ODLookup n2).
 Proof. exact domain_case_insensitive. Qed.
 Print Assumptions C09_case_insensitive.
 
 (** Forward-key lookup, for every history and key: nothing iff no route is
     stored for the key, otherwise a stored route for that key with the lowest
     metric. [stored eqb t k x]: x is an element of the bucket of key k. *)
-Theorem C09_forward_lookup : forall (local : N) (ops : list op) (key : str),
-  let m := run local ops in
-  match snd (step local m (OFLookup key)) with
+Theorem C09_forward_lookup : forall (local : N) (srt : sorter), sorter_ok srt -> forall (ops : list op) (key : str),
+  let m := run local srt ops in
+  match snd (step local srt m (OFLookup key)) with
   | FNone => forall x, ~ stored str_eqb (m_fwd m) key x
   | FFwd k r => k = key /\ stored str_eqb (m_fwd m) key r /\
                 forall x, stored str_eqb (m_fwd m) key x -> e_metric r <= e_metric x
@@ -82,9 +82,9 @@ Proof. exact forward_over_histories. Qed.
 Print Assumptions C09_forward_lookup.
 
 (** Agent-presence lookup, likewise. *)
-Theorem C09_agent_lookup : forall (local : N) (ops : list op) (agent : N),
-  let m := run local ops in
-  match snd (step local m (OALookup agent)) with
+Theorem C09_agent_lookup : forall (local : N) (srt : sorter), sorter_ok srt -> forall (ops : list op) (agent : N),
+  let m := run local srt ops in
+  match snd (step local srt m (OALookup agent)) with
   | FNone => forall x, ~ stored N.eqb (m_agent m) agent x
   | FAgent k r => k = agent /\ stored N.eqb (m_agent m) agent r /\
                   forall x, stored N.eqb (m_agent m) agent x -> e_metric r <= e_metric x
@@ -102,11 +102,11 @@ Example C09_instances :
   dres ex_dom_ops "www.example.com" = Some (str_of "*.Example.com", 1) /\
   dres ex_dom_ops "a.www.example.com" = None /\
   dres ex_dom_ops "example.com" = None /\
-  (match snd (step 0 (run 0 ex_dom_ops) (OFLookup (str_of "web"))) with FFwd _ r => Some (e_data r, e_metric r) | _ => None end
+  (match snd (step 0 (@isort) (run 0 (@isort) ex_dom_ops) (OFLookup (str_of "web"))) with FFwd _ r => Some (e_data r, e_metric r) | _ => None end
      = Some (str_of "h:2", 2)) /\
-  (match snd (step 0 (run 0 ex_dom_ops) (OALookup 3)) with FAgent _ r => Some (e_nexthop r, e_metric r) | _ => None end
+  (match snd (step 0 (@isort) (run 0 (@isort) ex_dom_ops) (OALookup 3)) with FAgent _ r => Some (e_nexthop r, e_metric r) | _ => None end
      = Some (2, 2)) /\
-  snd (step 0 (run 0 ex_dom_ops) (OALookup 4)) = FNone.
+  snd (step 0 (@isort) (run 0 (@isort) ex_dom_ops) (OALookup 4)) = FNone.
 Proof. exact domain_examples. Qed.
 
 (** The facts regenerated from domain.go, forward.go and agent.go on this run
@@ -122,3 +122,17 @@ Theorem C09_source_facts :
   gen_keyed_lookups_return_bucket_head = true.
 Proof. repeat split; reflexivity. Qed.
 Print Assumptions C09_source_facts.
+
+(** The hypothesis on the sorting function: it returns a metric-sorted
+    permutation of its argument. Go's sort.Slice with the less function
+    "routes[i].Metric < routes[j].Metric" is such a function (stable or not);
+    the stable insertion sort that sort.Slice is for up to 12 elements, which
+    the correspondence check runs, satisfies it. *)
+Theorem C09_sorter_hypothesis_meaning : forall srt : sorter,
+  sorter_ok srt <->
+  forall (D : Type) (l : list (entry D)),
+    Permutation (srt D l) l /\ Sorted.StronglySorted (fun x y => e_metric x <= e_metric y) (srt D l).
+Proof. exact sorter_ok_meaning. Qed.
+
+Example C09_sorter_hypothesis_satisfiable : sorter_ok (@isort).
+Proof. exact isort_ok. Qed.
